@@ -24,7 +24,13 @@ META = {
              "read, reopen, close_scale (sharded), write_invalid, read_all. "
              "non-trivial = history with a write, a reopen and a read of that "
              "chunk, or a border chunk, or a rejected coordinate; distinct by "
-             "the history."),
+             "the history."
+             ' Also: per-scale block sizes and a second chunk size per sca'
+             'le, scale keys with sub-directories / spaces / non-ASCII, ar'
+             'rays handed over in six memory layouts or a narrower safely '
+             'castable type, contents starting with gzip / zlib magic numb'
+             'ers, a second live dataset with the same keys, stored compre'
+             'ssed_segmentation files decoded from the format description.'),
     "trusted_base": ["dict model", "independent on_grid predicate",
                      "JPEG tolerance max %d / mean %.1f grey levels on "
                      "smooth content (calibrated: observed max 8 / mean 1.2 "
